@@ -22,6 +22,24 @@ META = {
         note="Not decided: that an arbitrary conforming signer's bytes verify and that the shipped fixtures verify (crypto library, needs execution). An extra pre-loop rejection that can never coincide with sufficient signatures would still be reported.",
         ref="5 C02",
     ),
+    "C03": dict(
+        technique="path enumeration of verify_root with parameter-rooted access paths, linear normal form of the version gate, must-call event matching; custom rules",
+        text="Decides the root-update rule structurally for all pairs of roots: every accepting path validated both arguments, established type root twice and new.version - trusted.version - 1 == 0, and contains successful verify_signable(new, K, t, gpg=True) calls with (K, t) read from the trusted root and from the new root; every rejection is the negation of one of these clauses. Access paths are rooted at parameters, so 'threshold read from the new root', a dropped self-check, a relaxed comparison or a swallowed error are each reported.",
+        note="Value-level equalities between the two key sets (e.g. skipping one call when both rule sets are equal) are not recognised and would be reported.",
+        ref="5 C03",
+    ),
+    "C05": dict(
+        technique="path enumeration of verify_delegation, dominance of the membership guard, access-path matching of the verify_signable call; custom rules",
+        text="Every accepting path of verify_delegation validated the trusted side, established delegation_name in trusted.signed.delegations (else UnknownRoleError) and called verify_signable on the untrusted parameter with pubkeys/threshold read from trusted.signed.delegations[<delegation_name parameter>] and the caller's gpg flag; explicit rejections are negations of these clauses.",
+        note="Relies on C01/C02 for what verify_signable itself guarantees.",
+        ref="5 C05",
+    ),
+    "C06": dict(
+        technique="information-flow (taint) of raise conditions into the discriminating exception handler; must-evaluate rule for the type comparison; re-use of the C02 decision table",
+        text="Shows that whether the type-vs-role comparison runs cannot depend on anything under untrusted['signatures']: the raise conditions of every exception the discriminating handler catches are propagated through callee summaries into the caller's access paths and must not mention an element of the signature map (this is exactly defect D2); on every accepting path where the signed part is well-formed delegating metadata the comparison was evaluated against the signed type.",
+        note="Monotonicity under removal of non-counting entries additionally relies on the C02 decision table, re-evaluated here.",
+        ref="5 C06",
+    ),
     "C13": dict(
         technique="exception-escape analysis (path-sensitive fact propagation + conditional summaries) over an ast-resolved program; call-graph acyclicity; custom rules",
         text="Static exception-escape analysis of all 24 public validators and 5 verifiers on every control-flow path: the escape set of each is within the documented families, named rejections carry the named classes, no while/recursion/mutated-iterable loops. Holds for every input because values are abstracted to guard facts; a new unguarded subscript, narrowed handler, assert-as-validation or foreign raise is reported with its call chain.",
